@@ -17,6 +17,7 @@ PY = sys.executable
 
 OLD_VERSIONS = ["v0.0.1", "v1.9.0", "v1.12.0", "v1.4.2", "v1.30.4", "1.31"]
 _OLD_COUNTER = __import__("itertools").count()
+_LACK_COUNTER = __import__("itertools").count()
 
 
 def default_keys_and_version():
@@ -101,7 +102,11 @@ class World:
             os.mkdir(evo)
         if scenario == "upgrade":
             old = dict(self.defaults)
-            for k in list(old)[:3]:
+            # which keys the older release lacked rotates: the first three, one whose name is a prefix of another key's name, the last two
+            ks = list(old)
+            pref = [k for k in ks if any(o != k and o.startswith(k) for o in ks)]
+            lacking = [ks[:3], pref[:1] or ks[:1], ks[-2:]][next(_LACK_COUNTER) % 3]
+            for k in lacking:
                 del old[k]
             old["plot_linewidth"] = 4.5     # a user edit that must survive
             with open(os.path.join(evo, "settings.json"), "w") as f:
